@@ -2760,6 +2760,13 @@ extract_manifest_args(const string &name, int num_args, int va_arg,
           arg += ' ';
         }
 
+      } else if (c == '/' && (peek() == '*' || peek() == '/')) {
+        // A comment is white space, too.
+        c = skip_whitespace(c);
+        if (!arg.empty()) {
+          arg += ' ';
+        }
+
       } else if (c == '\\') {
         // It could be a slash before a newline.  If so, that's whitespace as
         // well.
